@@ -438,6 +438,22 @@ impl GenCfg {
     }
 }
 
+impl GenCfg {
+    /// few vehicles, many jobs, nothing that keeps tours short: tours of 30+ activities (leg sampling of the insertion
+    /// heuristic only starts at such sizes), a third of the jobs pickup-and-delivery
+    pub fn long_tours() -> Self {
+        let mut c = Self::basic();
+        c.jobs = (30, 44);
+        c.types = (1, 1);
+        c.vehicles_per_type = (1, 2);
+        c.multi_jobs = true;
+        c.reloads = true;
+        c.time_windows = false;
+        c.tags = true;
+        c
+    }
+}
+
 /// random integer matrix over `n` points; metric ones are closed under shortest paths
 pub fn gen_matrix(rng: &mut Rng, n: usize, metric: bool, asymmetric: bool, max: i64) -> Vec<i64> {
     let mut m = vec![0i64; n * n];
